@@ -275,7 +275,7 @@ Proof.
   destruct (N.ltb_spec (cs_ver cs) MIN_ABORT_FUNCTION_CALL) as [Hlt|_];
     [exfalso; change MIN_ABORT_FUNCTION_CALL with 16 in Hlt; lia|].
   rewrite Hser.
-  destruct (fuel_for_S (ms (m_init s <| mw; w_abort ::= cons (b, callee) |>))) as (n & ->).
+  destruct (fuel_for_S ((m_init s <| mw; w_abort ::= cons (b, callee) |>))) as (n & ->).
   cbn [settle]. unfold settle_one. cbn [mw m_init set work0 w_remove_conns w_unsub_ev w_unsub_all
     w_svc_destroyed w_rm_call w_create_obj w_create_svc w_destroy_svc w_destroy_obj w_abort]. cbn.
   unfold abort_call. cbn. rewrite Hcl, Hab. cbn. subst c serial.
@@ -651,7 +651,7 @@ Proof.
     - injection Hh as <-. left. apply Hinit. reflexivity.
     - injection Hh as <-. left. apply Hinit. destruct (conns s !! c); reflexivity. }
   destruct Hpost as [Hp|[Hn Hw]].
-  - pose proof (settle_pot c0 s0 1 (fuel_for (ms m)) m Hp) as Hsp.
+  - pose proof (settle_pot c0 s0 1 (fuel_for m) m Hp) as Hsp.
     destruct Hs as [Hs|Hs]; rewrite Hs in Hsp; cbn in Hsp; unfold Pot, weight in Hsp; lia.
   - rewrite settle_idle in Hs by exact Hw. destruct Hs as [Hs|Hs]; [|discriminate]. injection Hs as <-. exact Hn.
 Qed.
@@ -748,7 +748,7 @@ Proof.
       destruct (decide (c0 = c)) as [->|Hnc].
       + rewrite lookup_insert, Hc. cbn. lia.
       + rewrite lookup_insert_ne by congruence. lia. }
-  pose proof (settle_pot c0 s0 n (fuel_for (ms m)) m Hpost) as Hsp.
+  pose proof (settle_pot c0 s0 n (fuel_for m) m Hpost) as Hsp.
   destruct Hs as [Hs|Hs]; rewrite Hs in Hsp; exact Hsp.
 Qed.
 
@@ -1018,7 +1018,7 @@ Proof.
       destruct (decide (c0 = c)) as [->|Hnc].
       + rewrite lookup_insert. cbn. discriminate.
       + rewrite lookup_insert_ne by congruence. intros _. lia. }
-  pose proof (settle_cv c0 s0 n (fuel_for (ms m)) m Hpost) as Hsp.
+  pose proof (settle_cv c0 s0 n (fuel_for m) m Hpost) as Hsp.
   destruct Hs as [Hs|Hs]; rewrite Hs in Hsp; exact (Hsp Halive).
 Qed.
 
@@ -1039,7 +1039,7 @@ Proof. intros H Hne He. pose proof (reply_accounting _ _ _ _ _ _ c0 s0 H Hne). l
 Lemma step_not_Fail s e f bs x : step s e f bs <> Fail x.
 Proof.
   rewrite step_unfold. destruct (step_handler s e f bs) as [m|m|]; try discriminate;
-    destruct (settle (fuel_for (ms m)) m); discriminate.
+    destruct (settle (fuel_for m) m); discriminate.
 Qed.
 
 Lemma run_cons s i rest s' os : run s (i :: rest) = Done (s', os) ->
@@ -1293,7 +1293,7 @@ Proof.
     - injection Hh as <-. exact Hinit.
     - injection Hh as <-. exact Hinit.
     - injection Hh as <-. destruct (conns s !! c0); exact Hinit. }
-  pose proof (settle_sy (fuel_for (ms m)) m Hpost) as Hsp.
+  pose proof (settle_sy (fuel_for m) m Hpost) as Hsp.
   assert (Hall : Forall Ksyn (mo m')) by (destruct Hs as [Hs|Hs]; rewrite Hs in Hsp; exact (proj2 Hsp)).
   rewrite Forall_forall in Hall. exact (Hall _ Hin).
 Qed.
